@@ -35,6 +35,11 @@ func isValidUnaryOperator(operator ast.TokenType) bool {
 	return operator == ast.TokenNot || operator == ast.TokenMinus
 }
 
+// operatorError is the error of an operator applied to an operand it is not defined for: '-' negates numbers and durations, '!' booleans.
+func (n *EvalUnaryNode) operatorError(typ ast.ValueType) error {
+	return fmt.Errorf("invalid unary operator %v for type %v", n.operator, typ)
+}
+
 func (n *EvalUnaryNode) String() string {
 	return fmt.Sprintf("%s%s", n.operator, n.nodeEvaluator)
 }
@@ -77,6 +82,9 @@ func (n *EvalUnaryNode) EvalDuration(scope *Scope, executionState ExecutionState
 		return 0, err
 	}
 	if typ == ast.TDuration {
+		if n.operator != ast.TokenMinus {
+			return 0, n.operatorError(typ)
+		}
 		result, err := n.nodeEvaluator.EvalDuration(scope, executionState)
 		if err != nil {
 			return 0, err
@@ -98,6 +106,9 @@ func (n *EvalUnaryNode) EvalFloat(scope *Scope, executionState ExecutionState) (
 		return 0, err
 	}
 	if typ == ast.TFloat {
+		if n.operator != ast.TokenMinus {
+			return 0, n.operatorError(typ)
+		}
 		result, err := n.nodeEvaluator.EvalFloat(scope, executionState)
 		if err != nil {
 			return 0, err
@@ -115,6 +126,9 @@ func (n *EvalUnaryNode) EvalInt(scope *Scope, executionState ExecutionState) (in
 		return 0, err
 	}
 	if typ == ast.TInt {
+		if n.operator != ast.TokenMinus {
+			return 0, n.operatorError(typ)
+		}
 		result, err := n.nodeEvaluator.EvalInt(scope, executionState)
 		if err != nil {
 			return 0, err
@@ -132,6 +146,9 @@ func (n *EvalUnaryNode) EvalBool(scope *Scope, executionState ExecutionState) (b
 		return false, err
 	}
 	if typ == ast.TBool {
+		if n.operator != ast.TokenNot {
+			return false, n.operatorError(typ)
+		}
 		result, err := n.nodeEvaluator.EvalBool(scope, executionState)
 		if err != nil {
 			return false, err
